@@ -14,14 +14,20 @@ to is a protocol status of that script on the daemon's final chain and mempool (
 any order); the last header it holds is the tip; no header notification for height h was written
 while the index was below h.  Every Notifications call sequence seen is also checked against the
 environment automaton of C20 (binding of that model to the code).
+Part B (vf/slicedsys.py): worker jobs are not atomic in the server - subscriptions (by an
+existing client, or by one that connects at that moment) are served at EVERY slice point
+(storage / file operation) of every advance_block / backup_block / flush_dbs job of 9 scenarios;
+same oracle.
 '''
-from vf import common, explore, fullrun
+from vf import common, explore, fullrun, slicedsys, system
 from vf.common import farm, finish
 
 PROP = 'C07'
 
 
 def run_case(case, res):
+    if 'sliced' in case:
+        return case_sliced(case, res)
     scns = fullrun.scenarios()
     scn = scns[case['scenario']]
 
@@ -41,6 +47,42 @@ def run_case(case, res):
         res.sample({'scenario': case['scenario'], 'bound': case['bound']}, cap=1)
 
 
+SLICED = ('enter-confirm', 'two-blocks', 'reorg-return', 'reorg-reconfirm', 'reorg-vanish-depth2',
+          'reorg-depth2-distinct-scripts', 'forced-switched', 'pressure-flush', 'parent-unconfirms')
+
+
+def inject_subscriptions(variant):
+    '''Subscriptions made in the middle of a worker job: by an existing client (0) or by a client
+    that connects at that moment (1).'''
+    def f(s):
+        if variant == 0:
+            c = s.x_clients['c2']
+        else:
+            c = s.x_clients['c3'] = system.Client(s, name='c3')
+            c.request('server.version', ['c3', '1.4.2'])
+        c.request('blockchain.headers.subscribe', [])
+        for k in ('A', 'C', 'D', 'B'):
+            c.request('blockchain.scripthash.subscribe', [fullrun.sh(k)])
+    return f
+
+
+def case_sliced(case, res):
+    '''Part B: subscriptions served at slice point k of the mutating worker jobs.'''
+    scn = fullrun.scenarios()[case['scenario']]
+
+    def judge(run):
+        return [(k + ':' + case['scenario'] + ':subscribed-mid-job', d)
+                for k, d in fullrun.judge_c07(run, res)]
+
+    found = slicedsys.enumerate_points(
+        lambda: fullrun.make(scn, immediate=True), lambda s: scn['script'](),
+        inject_subscriptions(case['variant']), judge, res, case['scenario'], closing_ticks=12,
+        only_k=case.get('k'))
+    for k, key, detail in found:
+        res.violation(key, dict(case, k=k), detail)
+    res.distinct('sliced_scenarios', case['scenario'])
+
+
 BOUND2 = ('forced-unchanged', 'late-subscribe', 'subscribe-then-mempool', 'lonely-read',
           'enter-confirm', 'untouched-block')
 
@@ -52,6 +94,9 @@ def cases_for(tier):
         # two deviations on the shorter scenarios (the others would take hours)
         cases = [c for c in cases if c['scenario'] not in BOUND2]
         cases += [dict(scenario=name, bound=2, shard=[i, 16]) for name in BOUND2 for i in range(16)]
+    for name in SLICED:
+        for variant in (0, 1):
+            cases.append(dict(sliced=True, scenario=name, variant=variant))
     return cases
 
 
@@ -62,7 +107,8 @@ def run(tier, seed, started):
     c = res.counters
     kinds = res.sets.get('deviation_kinds', set())
     if c.get('executions', 0) < 300 or not {'next', 'hold', 'release', 'run'} <= kinds or \
-            not c.get('statuses_judged') or not c.get('headers_judged'):
+            not c.get('statuses_judged') or not c.get('headers_judged') or \
+            c.get('sliced_executions', 0) < 200:
         common.vacuous(PROP, res, f'vacuous C07 run: {c} {kinds}')
     coverage = {
         'evaluations': c['executions'],
@@ -73,6 +119,7 @@ def run(tier, seed, started):
         'choice_points': c['choice_points'],
         'max_choice_points_in_one_execution': c.get('max:choice_points_in_one_execution'),
         'statuses_judged': c['statuses_judged'], 'headers_judged': c['headers_judged'],
+        'sliced_executions(subscriptions served mid-job)': c['sliced_executions'],
         'notification_call_sequences_accepted_by_c20_automaton': c.get('c20_traces_accepted', 0),
         'c20_event_kinds_witnessed': sorted(res.sets.get('c20_event_kinds', ())),
         'deviation_kinds_used': sorted(kinds),
